@@ -180,4 +180,18 @@ CrosswalkVerdict(old, new, cw) ==
                     \/ \E k \in 1..(Len(nonempty) - 1) : nonempty[k][2] # nonempty[k + 1][1]
        THEN "pieces-do-not-tile-new-block"
   ELSE "ok"
+(***************************************************************************)
+(* Shared small domains                                                    *)
+(***************************************************************************)
+OptInts(lo, hi) == {None} \cup (lo..hi)
+Steps(smax) == {None} \cup {s \in (-smax)..smax : s # 0}
+SliceIx(a, b, s) == [k |-> "slice", start |-> a, stop |-> b, step |-> s]
+IntIx(i) == [k |-> "int", i |-> i]
+GridsOf(shape) ==
+  CASE Len(shape) = 0 -> {<<>>}
+    [] Len(shape) = 1 -> {<<a>> : a \in Chunkings(shape[1])}
+    [] Len(shape) = 2 -> {<<a, b>> : a \in Chunkings(shape[1]), b \in Chunkings(shape[2])}
+    [] Len(shape) = 3 -> {<<a, b, c>> : a \in Chunkings(shape[1]), b \in Chunkings(shape[2]), c \in Chunkings(shape[3])}
+    [] Len(shape) = 4 -> {<<a, b, c, d>> : a \in Chunkings(shape[1]), b \in Chunkings(shape[2]), c \in Chunkings(shape[3]), d \in Chunkings(shape[4])}
+ShapeOfGrid(g) == [a \in 1..Len(g) |-> SumSeq(g[a])]
 =============================================================================
